@@ -486,7 +486,7 @@ PROGRAMS = [
     ('1 ?> 2 |> 3', '-'), ('() ?> 2 |> 3', '-'), ('$ ?> 10 !> 20', '(i 1)'), ('("ab", "cd", "ef") . 1', '-'),
     ('(:a = "x", :b = "y") . :b', '-'), ('$ . :k', '(l (p (s 5) (i 1)))'), ('"abc" <> "def"', '-'),
     ('(1, 2) <> (3, 4)', '-'), ('{ { $ * 2 } <~ $ + 1 } <~ 4', '-'), ('#"abc"', '-'), ('1 .. 4', '-'),
-    ('(1, 2, 3) ~ (0 .. 1)', '-'), (':a.b.c', '-'), ('5 ~~ 6 ~~ 7', '-'), ('$', '(l (i 1) (cl 97 98) (p (s 5) (l (i 2))))'),
+    ('(1, 2, 3) ~ (0 .. 1)', '-'), (':a.b.c', '-'), ('(1, 2) . 0', '-'), ('$', '(l (i 1) (cl 97 98) (p (s 5) (l (i 2))))'),
     ('{ $ . 0 + $ . 1 } <~ (3, 4)', '-'), ('"xy" = "xy"', '-'), ('(1, (2, (3, "deep"))) . 1 . 1 . 1', '-'),
     ('{ $ < 5 ?> ^~ ($ + 1) |> ($, "done") } <~ 0', '-'), ('1 + 2 * 3 - 4', '-'),
 ]
@@ -538,8 +538,20 @@ def gen_run_cases(bases):
 
 
 # ------------------------------------------------------------------ comparison and oracle
+#
+# Public interface for tools/props/c19.py:
+#   gen_cases(seed, tier) -> list[list[str]]                 script cases (suites OPT and CLONE)
+#   gen_run_cases(steps: dict[int, int]) -> list[list[str]]   program cases; steps from run_base_cases()
+#   oracle(case, impl_result) -> list[str]                    C19 violation classes, from the implementation's line alone
+#   oracle_detail(case, impl_result) -> list[(cls, text)]     the same with the record number / detail
+#   strip(result, readback=True) -> str                       the part of an implementation OR model line to compare
+#   comparable(case, impl_result, model_result) -> (str, str) both lines stripped under the comparison policy
 
 REC_RE = re.compile(r'BEFORE\{(.*?)\} AFTER\{(.*?)\}(?= iso=| \|\| |$)')
+SECTION_CLASS = {'R': 'registers', 'V': 'values', 'F': 'frames', 'X': 'roots', 'P': 'retained', 'S': 'symbols', 'A': 'handles'}
+MARKER_RE = re.compile(r'<(bad-addr|invalid|undecodable|err-[a-z]+|panic|err|none|deep|no-value|loop)>')
+# streams whose scripts use the store as a host may (the rest probe misuse of set_data_retention_count)
+WELLFORMED = ('g', 'c', 'dag', 'mut', 'cs')
 
 
 def split_sections(s):
@@ -549,55 +561,111 @@ def split_sections(s):
     return out
 
 
-def normalise(line, strict):
-    line = re.sub(r' iso=[01]', '', line)
-    line = re.sub(r'<(bad-addr|invalid|undecodable|err-[a-z]+|panic|err|none|deep)>', '<?>', line)
+def stream_of(cid):
+    return re.match(r'[a-z]+', cid).group(0)
+
+
+def strip(result, readback=True):
+    """The part of a result line that implementation and model must agree on.
+    Removes what only one side prints (` iso=0|1` of the model; ` E<message>` / ` U<0|1>` error detail of the
+    implementation), identifies the markers of unreadable values, and with readback=False also drops the
+    BEFORE{...} AFTER{...} structural read-back (kept: status, mapping, block table, heads, raw cells, symbol table)."""
+    line = re.sub(r' iso=[01]', '', result)
     line = re.sub(r' E<[^>]*>', '', line)
-    if not strict:
+    line = re.sub(r' U<[01]>', '', line)
+    line = MARKER_RE.sub('<?>', line)
+    if not readback:
         line = re.sub(r' BEFORE\{.*?\} AFTER\{.*?\}(?= \|\| |$)', '', line)
     return line
 
 
-def oracle(line):
-    """C19 on the implementation's own output; returns list of failure descriptions"""
-    fails = []
-    for rec in line.split(' || '):
+def _run_core(r):
+    return re.sub(r' compactions=.*', '', r)
+
+
+def oracle_detail(case, impl_result):
+    """C19 decided on the implementation's own output. Returns [(class, detail)].
+    Script cases, per opt/clone record:
+      opt.registers opt.values opt.frames opt.roots opt.retained opt.symbols   read-back differs before/after
+      clone.registers ... clone.symbols clone.handles                           something else changed under clone_data
+      clone.result                                                              original / returned value differ from the argument
+      opt.unreadable clone.unreadable   a value reads back as an error marker afterwards
+      opt.err:<message> clone.err:<message> opt.panic clone.panic              the call failed
+      stray-cells                        CloneIndexMap outside the data block / live cell above a cursor
+    Accepted: `optimize` refusing a retention count beyond the data, with the store left untouched (U<1>).
+    Program cases (`run`): run.result (differs from the run without compaction), run.opterr, run.panic, run.bad."""
+    out = []
+    if len(case) > 2 and case[2] == 'run':
+        parts = impl_result.split(' || base ')
+        if case[5] == 'base':
+            return out
+        if len(parts) != 2:
+            return [('run.bad', impl_result[:120])]
+        res, base = parts
+        if res.startswith('opterr'):
+            out.append(('run.opterr', res[:120]))
+        elif res.startswith('optpanic') or res.startswith('runpanic'):
+            out.append(('run.panic', res[:120]))
+        elif _run_core(res) != _run_core(base):
+            out.append(('run.result', '%s  vs base  %s' % (res[:120], base[:120])))
+        return out
+    for rec in impl_result.split(' || '):
         m = re.match(r'(\d+):(opt|clone) (\w+)', rec)
         if not m:
             continue
         n, op, status = m.groups()
         if status != 'ok':
             detail = re.search(r'E<([^>]*)>', rec)
-            fails.append('%s:%s %s %s' % (n, op, status, detail.group(1) if detail else ''))
+            msg = detail.group(1) if detail else ''
+            if status == 'err' and op == 'opt' and msg.startswith('Data retention count') and ' U<1>' in rec:
+                continue
+            short = re.sub(r' \(.*$', '', msg)
+            out.append(('%s.%s%s' % (op, status, ':' + short if short else ''), '%s:%s' % (n, msg)))
             continue
         mm = REC_RE.search(rec)
         if not mm:
-            fails.append('%s:%s unparsable' % (n, op))
+            out.append(('%s.unparsable' % op, n))
             continue
         b, a = split_sections(mm.group(1)), split_sections(mm.group(2))
         for sec in 'RVFPS':
             if b.get(sec) != a.get(sec):
-                fails.append('%s:%s %s differs' % (n, op, sec))
+                out.append(('%s.%s' % (op, SECTION_CLASS[sec]), n))
         if op == 'opt':
             if b.get('X') != a.get('X'):
-                fails.append('%s:opt X differs' % n)
+                out.append(('opt.roots', n))
         else:
             x = b.get('X', '')
             if a.get('X') != x + ';' + x:
-                fails.append('%s:clone X differs' % n)
+                out.append(('clone.result', n))
             if b.get('A') != a.get('A'):
-                fails.append('%s:clone A differs' % n)
+                out.append(('clone.handles', n))
         if '<' in re.sub(r' A=\[.*$', '', mm.group(2)).replace('K<', ''):
-            if not any(f.startswith('%s:%s' % (n, op)) for f in fails):
-                fails.append('%s:%s marker' % (n, op))
+            if not any(d == n for _, d in out):
+                out.append(('%s.unreadable' % op, n))
         w = re.search(r' W=(\d+)', rec)
         if w and w.group(1) != '0':
-            fails.append('%s:%s stray-cells W=%s' % (n, op, w.group(1)))
-    return fails
+            out.append(('stray-cells', '%s W=%s' % (n, w.group(1))))
+    return out
 
 
-def stream_of(cid):
-    return re.match(r'[a-z]+', cid).group(0)
+def oracle(case, impl_result):
+    """list of C19 violation classes (see oracle_detail), duplicates removed, in order of appearance"""
+    seen = []
+    for cls, _ in oracle_detail(case, impl_result):
+        if cls not in seen:
+            seen.append(cls)
+    return seen
+
+
+def comparable(case, impl_result, model_result):
+    """(impl, model) stripped under the comparison policy: raw cells, heads, mapping and block table always; the
+    structural read-back too when the script is a well-formed use of the store and the oracle accepts the line
+    (in corrupted states the getters of the implementation fail in ways the model does not reproduce).
+    Program cases are implementation-only: ('', '')."""
+    if len(case) > 2 and case[2] == 'run':
+        return '', ''
+    rb = stream_of(case[1]) in WELLFORMED and not oracle(case, impl_result)
+    return strip(impl_result, rb), strip(model_result, rb)
 
 
 def compare(cases, impl, model):
@@ -605,28 +673,39 @@ def compare(cases, impl, model):
     dis, orc, iso = [], [], []
     for c in cases:
         cid = c[1]
-        st = stream_of(cid)
-        if st == 'run':
+        if stream_of(cid) == 'run':
             continue
-        strict = st in ('g', 'c', 'dag', 'mut', 'cs')
         a, b = impl.get(cid, 'MISSING'), model.get(cid, 'MISSING')
-        fails = oracle(a)
+        fails = oracle_detail(c, a)
         if fails:
             orc.append((cid, c[2], fails))
-        ok_strict = strict and not fails
-        if normalise(a, ok_strict) != normalise(b, ok_strict):
+        x, y = comparable(c, a, b)
+        if x != y:
             dis.append((cid, c[2], a, b))
         # the verified checker must agree with the oracle on every record
-        recs_a = a.split(' || ')
-        recs_b = b.split(' || ')
-        for ra, rb in zip(recs_a, recs_b):
+        for ra, rb in zip(a.split(' || '), b.split(' || ')):
             m = re.search(r' iso=([01])', rb)
             if not m:
                 continue
-            f = oracle(ra)
+            f = oracle_detail(c, ra)
             if (m.group(1) == '1') != (not f):
                 iso.append((cid, c[2], m.group(1), f))
     return dis, orc, iso
+
+
+def run_base_cases():
+    from vlib import esc
+    return [['OPT', 'run%d.base' % i, 'run', esc(src), inp, 'base'] for i, (src, inp) in enumerate(PROGRAMS)]
+
+
+def steps_of(base_results):
+    steps = {}
+    for i in range(len(PROGRAMS)):
+        r = base_results.get('run%d.base' % i, '')
+        m = re.search(r'steps=(\d+)', r)
+        if r.startswith('ok') and m:
+            steps[i] = int(m.group(1))
+    return steps
 
 
 def main():
@@ -650,7 +729,7 @@ def main():
     print('TOTAL %d cases; MODEL disagreements %d; ORACLE failures %d; ISO mismatches %d' % (total, len(all_dis), len(all_orc), len(all_iso)))
     by_stream = {}
     for cid, script, fails in all_orc:
-        key = (stream_of(cid), re.sub(r'^\d+:', '', fails[0]))
+        key = (stream_of(cid), fails[0][0])
         by_stream.setdefault(key, []).append((len(script), cid, script, fails))
     for key in sorted(by_stream):
         lst = sorted(by_stream[key])
@@ -662,51 +741,39 @@ def main():
     for x in all_iso[:10]:
         print('ISO-MISMATCH', x)
     # programs
-    base_cases = []
-    for i, (src, inp) in enumerate(PROGRAMS):
-        base_cases.append(['OPT', 'run%d.base' % i, 'run', vlib.esc(src), inp, 'base'])
-    base = vlib.run_impl(base_cases, 'optrunbase', per_case_s=10.0)
-    steps = {}
+    base = vlib.run_impl(run_base_cases(), 'optrunbase', per_case_s=10.0)
+    steps = steps_of(base)
     for i in range(len(PROGRAMS)):
-        r = base.get('run%d.base' % i, '')
-        m = re.search(r'steps=(\d+)', r)
-        if r.startswith('ok') and m:
-            steps[i] = int(m.group(1))
-        else:
-            print('RUN base not ok:', PROGRAMS[i], r)
+        if i not in steps:
+            print('RUN base not ok:', PROGRAMS[i], base.get('run%d.base' % i))
     rc = gen_run_cases(steps)
-    res = vlib.run_impl(rc, 'optrun', per_case_s=10.0)
-    strip = lambda s: re.sub(r' compactions=.*', '', s)
-    bad = 0
-    badret = {}
+    res = vlib.run_impl(rc, 'optrun', per_case_s=20.0)
+    bad = {}
     loads = []
     expect = {}
     for c in rc:
         cid = c[1]
         i = int(re.match(r'run(\d+)', cid).group(1))
         r = res.get(cid, 'MISSING')
-        if strip(r) != strip(base['run%d.base' % i]):
-            if c[5].startswith('ret'):
-                badret.setdefault(i, []).append((c[5], r[:200]))
-            else:
-                bad += 1
-                print('RUN-ORACLE', PROGRAMS[i], c[5], '->', r[:300], ' base:', base['run%d.base' % i])
-        for j, m in enumerate(re.finditer(r'PRE<(.*?)> POST<(.*?)>', r)):
+        f = oracle_detail(c, r)
+        if f:
+            kind = 'ret' if c[5].startswith('ret') else 'build'
+            bad.setdefault((kind, i), []).append((c[5], f[0]))
+        for j, m in enumerate(re.finditer(r'PRE<(.*?)> POST<(.*?)>', r.split(' || base ')[0])):
             lid = '%s.snap%d' % (cid.replace('run', 'snap'), j)
             loads.append(['OPT', lid, 'load %s; opt' % m.group(1)])
             expect[lid] = m.group(2)
-    print('RUN: %d programs, %d compaction cases, %d oracle failures with build-time retention' % (len(steps), len(rc), bad))
     nret = sum(1 for c in rc if c[5].startswith('ret'))
-    print('RUN-RET: %d cases with a second retain_all_current_data at a step boundary, %d oracle failures in %d programs' % (nret, sum(len(v) for v in badret.values()), len(badret)))
-    for i in sorted(badret):
-        print('   RUN-RET-ORACLE', PROGRAMS[i], 'base:', base['run%d.base' % i][:80], ' first:', badret[i][0], ' (%d modes)' % len(badret[i]))
+    print('RUN: %d programs, %d cases with build-time retention only, %d oracle failures' % (len(steps), len(rc) - nret, sum(len(v) for k, v in bad.items() if k[0] == 'build')))
+    print('RUN-RET: %d cases with a second retain_all_current_data at a step boundary, %d oracle failures' % (nret, sum(len(v) for k, v in bad.items() if k[0] == 'ret')))
+    for k in sorted(bad):
+        print('   RUN-ORACLE', k[0], PROGRAMS[k[1]], ' first:', bad[k][0], ' (%d modes)' % len(bad[k]))
     if loads:
         model = vlib.run_model(loads, 'optsnap')
         sd = 0
         for c in loads:
             got = model.get(c[1], 'MISSING')
             m = re.search(r':opt ok M=\[\] (B=.*?) BEFORE\{', got)
-            # the data block never shrinks its allocation; the model loads grow=10 like the default settings
             if not m or m.group(1) != expect[c[1]]:
                 sd += 1
                 if sd <= 5:
